@@ -10,7 +10,10 @@ import (
 func Table() map[string]*Property {
 	t := map[string]*Property{}
 	add := func(p *Property) { t[p.ID] = p }
-	fsGhost := []vc.GhostVar{{Name: "fs", Type: "map[string]string"}, {Name: "foff", Type: "map[*os.File]int"}, {Name: "handledBy", Type: "Generator"}, {Name: "synced", Type: "bool"}}
+	fsGhost := []vc.GhostVar{{Name: "fs", Type: "map[string]string"}, {Name: "foff", Type: "map[*os.File]int"}, {Name: "handledBy", Type: "Generator"}, {Name: "synced", Type: "bool"}, {Name: "prefixesFrozen", Type: "bool"}}
+
+	// the same ghost state, with types that resolve in package main
+	mainGhost := []vc.GhostVar{{Name: "fs", Type: "map[string]string"}, {Name: "foff", Type: "map[string]int"}, {Name: "handledBy", Type: "derive.Generator"}, {Name: "synced", Type: "bool"}, {Name: "prefixesFrozen", Type: "bool"}}
 
 	add(&Property{
 		ID: "C11",
@@ -38,7 +41,8 @@ func Table() map[string]*Property {
 	}
 	add(&Property{
 		ID:     "C10",
-		Groups: []Group{{Layer: "D", Pkg: "derive", Ghost: fsGhost, Funcs: []string{"derive.pkg.Filename", "derive.pkg.Print", "derive.pkg.Delete", "derive.pkg.Add", "derive.newPackage", "derive.program.generatePackage"}}},
+		Groups: []Group{{Layer: "D", Pkg: "derive", Ghost: fsGhost, Funcs: []string{"derive.pkg.Filename", "derive.pkg.Print", "derive.pkg.Delete", "derive.pkg.Add", "derive.newPackage", "derive.program.generatePackage", "derive.program.Generate"}},
+			{Layer: "D", Pkg: "main", Ghost: mainGhost, Funcs: []string{"main.main"}}},
 		Assumptions: []string{
 			"A-int; Go maps and slices are modelled as values (no aliasing between distinct map/slice variables)",
 			"go/format's output for an AST is 'the gofmt formatting' (Format is uninterpreted); comment placement is go/printer's business",
@@ -50,7 +54,7 @@ func Table() map[string]*Property {
 	})
 	add(&Property{
 		ID:     "C07",
-		Groups: []Group{{Layer: "D", Pkg: "derive", Ghost: fsGhost, Funcs: []string{"derive.pkg.Filename", "derive.pkg.Print", "derive.pkg.Delete", "derive.program.generatePackage"}}},
+		Groups: []Group{{Layer: "D", Pkg: "derive", Ghost: fsGhost, Funcs: []string{"derive.pkg.Filename", "derive.pkg.Print", "derive.pkg.Delete", "derive.program.generatePackage", "derive.program.Generate"}}},
 		Assumptions: []string{
 			"decided: the file effects (R1 Print leaves exactly the printer's bytes in derived.gen.go whatever it held before, incl. a longer or truncated remnant; R2 on every successful return the derived file was written from the last package state or removed; Print is reached only with content, Delete only without)",
 			"NOT decided by any contract within reach: that the argument types goderive reads at the call sites are independent of the old derived.gen.go - that is go/types run over user sources plus the old file (loader, AllowErrors); the stale-signature case (deriveSort(deriveKeys(m)) after m's key type changes) found by hand in the design round is therefore outside this check",
@@ -61,10 +65,12 @@ func Table() map[string]*Property {
 	})
 	add(&Property{
 		ID:     "C12",
-		Groups: []Group{{Layer: "D", Pkg: "derive", Ghost: fsGhost, Funcs: []string{"derive.sortPlugins", "derive.pkg.Add"}}},
+		Groups: []Group{{Layer: "D", Pkg: "derive", Ghost: fsGhost, Funcs: []string{"derive.sortPlugins", "derive.pkg.Add", "derive.NewPlugins", "derive.plugins.Load"}},
+			{Layer: "D", Pkg: "main", Ghost: mainGhost, Funcs: []string{"main.main"}}},
 		Assumptions: []string{
 			"string lemmas: hasPrefix(s,p) ==> len(p) <= len(s); byte-wise string order is a strict total order",
-			"main's prefix substitution loop (strings.Replace of 'derive' by -prefix, per-plugin override) is not under contract (main is flag/log plumbing around 33 NewPlugin calls)",
+			"main.main is under contract for the ORDER of operations only (every SetPrefix precedes NewPlugins' sort: ghost typestate prefixesFrozen; the sorted collection reaches every newPackage through plugins.Load and program.Generate); which prefix string main computes (strings.Replace of 'derive' by -prefix, per-plugin override) is not specified",
+			"Plugin.GetPrefix is modelled as an attribute of the plugin (pure); sound because SetPrefix is forbidden once the collection is sorted (obligation prefixes-not-frozen at every SetPrefix call in main)",
 			"prefix parametricity of the emitted templates: generated function names enter emitted text only as FuncName holes produced by GetFuncName (Layer G; see C01)",
 			"uniqueness of the winner for pairwise distinct prefixes follows on paper: two matching prefixes of equal length are the same string",
 		},
